@@ -660,6 +660,117 @@ def _run(c):
                                      "c_offset": off, "c_bytes_after": got, "expected": cval[b_name], "read_back": back, "previous": a_name})
                     del sim
     c.cov["option_pair_cases"] = pair_cases
+    # ---- composite names: a name whose branch assigns several C fields (WH, WHC, WHCKL, … ; SABA spellings) stands for a TUPLE of
+    # C values.  For all ordered pairs (any accepted name A, composite B) on one simulation, every field that B's branch or a sibling
+    # branch selecting the same primary value assigns must end up as on a fresh simulation set to B.
+    rule.append("composite option names (setter branches assigning >= 2 C fields, found by AST): all ordered pairs (A, B) on one simulation; every C field "
+                "assigned by B's branch or a sibling with the same primary value must equal its value on a fresh simulation set to B")
+
+    def resolve_path(cname, parts, base=0):
+        """ctypes attribute path of class cname -> (absolute C offset, size) of the C member it ends in, or None"""
+        st = cm.get(cname, {}).get("struct")
+        if st is None or st not in cs["structs"]:
+            return None
+        first = parts[0]
+        fam = [f for f in ref["options"] if f["class"] == cname and f["property"] == first]
+        if fam and len(parts) == 1:
+            m_ = cmember(cs, fam[0]["struct"], fam[0]["member"])
+            return (base + m_["off"], m_["size"]) if m_ else None
+        fld = [f for f in py["classes"][cname]["members"] if f["name"] == first]
+        if not fld:
+            # a property that reads/writes exactly one ctypes field
+            cand = {a for p_ in py["props"] if p_["cls"] == cname and p_["prop"] == first for a in p_["attrs"]
+                    if any(f["name"] == a for f in py["classes"][cname]["members"])}
+            if len(cand) == 1 and len(parts) == 1:
+                return resolve_path(cname, [cand.pop()], base)
+            return None
+        ms_ = corresponding(cs, ref, st, first, fld[0]["kind"])
+        if not ms_:
+            return None
+        if len(parts) == 1:
+            return (base + ms_[0]["off"], sum(x["size"] for x in ms_))
+        if fld[0]["kind"][0] == "struct":
+            return resolve_path(fld[0]["kind"][1], parts[1:], base + ms_[0]["off"])
+        return None
+
+    comp_cases = 0
+    by_setter = {}
+    for x in py.get("composites", []):
+        by_setter.setdefault((x["cls"], x["prop"]), []).append(x)
+    for (ccls, cprop), rows_ in by_setter.items():
+        if ccls != "Simulation":
+            continue          # composite setters of embedded classes would need a holder path; none exist today
+        comps = {}
+        for x in rows_:
+            leaves = {}
+            for pth, _lit in x["stores"]:
+                r_ = resolve_path(ccls, pth.split("."))
+                if r_ is not None:
+                    leaves[pth] = r_
+            if len(leaves) >= 2:
+                comps[x["name"]] = leaves
+        if not comps:
+            continue
+        prim = resolve_path(ccls, [cprop])
+
+        def fresh(name):
+            s_ = rebound.Simulation()
+            setattr(s_, cprop, name)
+            return s_
+        fresh_sims, primval = {}, {}
+        for nm_ in comps:
+            try:
+                fresh_sims[nm_] = fresh(nm_)
+                primval[nm_] = cbytes(fresh_sims[nm_], *prim) if prim else None
+            except Exception as e:
+                c.violation("composite-raises:%s.%s=%s" % (ccls, cprop, nm_), "%s.%s = %r raises %s" % (ccls, cprop, nm_, e), {"name": nm_})
+        # SABA-style spellings are composites too (integrator + ri_saba.type); prefix branch, not a literal
+        extra = {}
+        if cprop == "integrator" and "SABA_TYPES" in py["dicts"]:
+            lv = {"integrator": resolve_path(ccls, ["integrator"]), "ri_saba.type": resolve_path(ccls, ["ri_saba", "type"])}
+            if all(lv.values()):
+                for nm_, _v in py["dicts"]["SABA_TYPES"]["items"]:
+                    extra["saba" + nm_] = lv
+        for nm_, lv in extra.items():
+            try:
+                fresh_sims[nm_] = fresh(nm_)
+                primval[nm_] = cbytes(fresh_sims[nm_], *prim) if prim else None
+            except Exception:
+                pass
+        allc = dict(comps)
+        allc.update(extra)
+        firsts = list(allc) + [n_ for f_ in ref["options"] if f_["class"] == ccls and f_["property"] == cprop
+                               for n_, _ in py["dicts"].get(f_["dict"], {}).get("items", [])]
+        for b_ in allc:
+            if b_ not in fresh_sims:
+                continue
+            fields = {}
+            for o_, lv in allc.items():
+                if o_ in primval and primval[o_] == primval[b_]:
+                    fields.update(lv)
+            for a_ in firsts:
+                for b_in in (b_, b_.upper()):
+                    sim = rebound.Simulation()
+                    comp_cases += 1
+                    c.count(("composite", ccls, cprop, a_, b_in), nontrivial=(a_ != b_))
+                    try:
+                        setattr(sim, cprop, a_)
+                        setattr(sim, cprop, b_in)
+                    except Exception as e:
+                        c.violation("composite-raises:%s.%s=%s" % (ccls, cprop, b_), "%s.%s = %r then = %r raises %s" % (ccls, cprop, a_, b_in, e), {"python": "sim.%s = %r; sim.%s = %r" % (cprop, a_, cprop, b_in)})
+                        continue
+                    diff = {pth: (cbytes(sim, *loc), cbytes(fresh_sims[b_], *loc)) for pth, loc in fields.items()
+                            if cbytes(sim, *loc) != cbytes(fresh_sims[b_], *loc)}
+                    if diff:
+                        c.violation("composite-after-previous:%s.%s=%s" % (ccls, cprop, b_),
+                                    "%s.%s = %r, then = %r on the same simulation: C fields %s differ from a fresh simulation set to %r (after sequence, fresh)"
+                                    % (ccls, cprop, a_, b_in, diff, b_),
+                                    {"python": "sim = rebound.Simulation(); sim.%s = %r; sim.%s = %r" % (cprop, a_, cprop, b_in),
+                                     "fields_after_sequence_vs_fresh": {k: list(v) for k, v in diff.items()}, "c_locations": {k: list(fields[k]) for k in diff}})
+                    del sim
+    c.cov["composite_pair_cases"] = comp_cases
+    c.cov["composite_names"] = sorted(n_ for rows_ in by_setter.values() for n_ in {x["name"] for x in rows_ if len(x["stores"]) >= 2})
+
     # SABA shortcuts:  sim.integrator = "saba" + type
     fam_i = [f for f in ref["options"] if f["dict"] == "INTEGRATORS"]
     fam_s = [f for f in ref["options"] if f["dict"] == "SABA_TYPES"]
